@@ -141,6 +141,12 @@ func (r *Run) Extra(k string, v interface{}) { r.mu.Lock(); r.extra[k] = v; r.mu
 func (r *Run) Capped(note string) {
 	r.mu.Lock()
 	r.exhaustive = false
+	for _, n := range r.capNotes {
+		if n == note {
+			r.mu.Unlock()
+			return
+		}
+	}
 	r.capNotes = append(r.capNotes, note)
 	r.mu.Unlock()
 }
